@@ -210,6 +210,16 @@ func init() {
 		killSelf()
 		return nil
 	}
+	ops["showdb"] = func(op *proto.Op, res *proto.Res) error {
+		rows, _, err := engine.EvaluateShowDatabase(sql.ShowDatabase{})
+		if err != nil {
+			return err
+		}
+		for _, r := range rows {
+			res.Strs = append(res.Strs, fmt.Sprint(r.Vals[0]))
+		}
+		return nil
+	}
 	ops["gc"] = func(op *proto.Op, res *proto.Res) error {
 		var ms runtime.MemStats
 		runtime.ReadMemStats(&ms)
